@@ -34,6 +34,8 @@ package clusterinfo
 //@   ensures[client-count] sum64(c.ClientCount, old(c.ClientCount), old(a.ClientCount))
 //@   ensures[paused] c.Paused == (old(c.Paused) || old(a.Paused))
 //@   ensures[nodes] len(c.NodeStats) == old(len(c.NodeStats)) + 1
+//   (the per-node list stays in its backing array or moves to one allocated by this call)
+//@   ensures[nodes-array] base(c.NodeStats) == old(base(c.NodeStats)) || !old(allocated(base(now(c.NodeStats))))
 //@   ensures[clients] len(c.Clients) == old(len(c.Clients)) + old(len(a.Clients))
 //@   ensures[latency] c.E2eProcessingLatency != nil && entriesOK(c.E2eProcessingLatency)
 //@   ensures[latency-kept] old(c.E2eProcessingLatency) != nil ==> c.E2eProcessingLatency == old(c.E2eProcessingLatency)
